@@ -81,23 +81,37 @@ func vh_C05_calls()  { vFormatOpaque(true); env := vEvalEnv(0); vC05Run(env, vPr
 // vh_C05_compile: a malformed nested special form at every evaluated
 // position of every special form must surface as an error (compile errors
 // are not swallowed into a successful result).
-func vh_C05_compile() {
-	vFormatOpaque(true)
-	env := vEvalEnv(0)
+// vC05BadForm: a malformed nested special form (or, kind 3.., a form that
+// fails at run time) at one of the evaluated positions of a special form.
+func vC05BadForm(env *Zlisp, runtimeToo bool) Sexp {
 	e := env
 	s := func(n string) Sexp { return vS(e, n) }
+	nbad := 3
+	if runtimeToo {
+		nbad = 6
+	}
 	var bad Sexp
-	switch vChoice("bad", 3) {
+	switch vChoice("bad", nbad) {
 	case 0:
 		bad = vL(s("let")) // no bindings
 	case 1:
 		bad = vL(s("cond"), vI(1), vI(2)) // missing default
-	default:
+	case 2:
 		bad = vL(s("fn")) // no parameter list
+	case 3:
+		bad = vL(s("nosuchfunction"), vI(1)) // fails at run time
+	case 4:
+		bad = vL(s("+"), vI(1), s("unboundname"))
+	default:
+		bad = vL(s("first"), vA(e)) // a builtin that reports an error
 	}
 	ok := vI(1)
+	ctl := func(init, test, adv Sexp) Sexp { return vA(e, init, test, adv) }
+	i0 := vL(s("def"), s("i"), vI(0))
+	lt := vL(s("<"), s("i"), vI(1))
+	inc := vL(s("set"), s("i"), vL(s("+"), s("i"), vI(1)))
 	var f Sexp
-	switch vChoice("pos", 16) {
+	switch vChoice("pos", 24) {
 	case 0:
 		f = vL(s("and"), ok, bad)
 	case 1:
@@ -119,7 +133,7 @@ func vh_C05_compile() {
 	case 9:
 		f = vL(s("def"), s("x"), bad)
 	case 10:
-		f = vL(s("for"), vA(e, vL(s("def"), s("i"), vI(0)), vL(s("<"), s("i"), vI(1)), vL(s("set"), s("i"), vL(s("+"), s("i"), vI(1)))), bad)
+		f = vL(s("for"), ctl(i0, lt, inc), bad)
 	case 11:
 		f = vL(s("+"), ok, bad)
 	case 12:
@@ -128,9 +142,35 @@ func vh_C05_compile() {
 		f = vL(s("newScope"), bad, ok)
 	case 14:
 		f = vL(s("letseq"), vA(e, s("x"), ok, s("y"), bad), ok)
-	default:
+	case 15:
 		f = vL(s("set"), s("x"), bad)
+	case 16:
+		f = vL(s("for"), ctl(vL(s("def"), s("i"), bad), lt, inc), ok)
+	case 17:
+		f = vL(s("for"), ctl(i0, vL(s("and"), lt, bad), inc), ok)
+	case 18:
+		f = vL(s("for"), ctl(i0, lt, vL(s("begin"), bad, inc)), ok)
+	case 19: // inside a let inside the body of the inner of two loops
+		f = vL(s("for"), ctl(i0, lt, inc), vL(s("for"), ctl(vL(s("def"), s("j"), vI(0)), vL(s("<"), s("j"), vI(1)), vL(s("set"), s("j"), vI(1))), vL(s("let"), vA(e, s("q"), ok), bad)))
+	case 20: // inside the body of a function that is being defined and called
+		f = vL(s("begin"), vL(s("defn"), s("bf"), vA(e), vL(s("let"), vA(e, s("q"), ok), bad)), vL(s("bf")))
+	case 21: // argument of a call of a user function
+		f = vL(s("begin"), vL(s("defn"), s("id"), vA(e, s("u")), s("u")), vL(s("id"), bad))
+	case 22: // inside a macro template that is expanded
+		f = vL(s("begin"), vL(s("defmac"), s("mm"), vA(e), vL(s("quote"), bad)), vL(s("mm")))
+	default: // inside an array literal
+		f = vA(e, ok, bad)
 	}
+	return f
+}
+
+// vh_C05_compile: a malformed nested special form at every evaluated
+// position of every special form must surface as an error (compile errors
+// are not swallowed into a successful result).
+func vh_C05_compile() {
+	vFormatOpaque(true)
+	env := vEvalEnv(0)
+	f := vC05BadForm(env, false)
 	_, err, panicked := vEval(env, f)
 	vAssert(!panicked, "compile-no-panic")
 	if panicked {
